@@ -6,6 +6,7 @@ def dispatch (toks : List String) : String :=
   | "C06" :: rest => Poor.Drv.Range.handle rest
   | "C07" :: rest => Poor.Drv.Range.handle rest
   | "C09" :: rest => Poor.Drv.Reader.handle rest
+  | "C16" :: rest => Poor.Drv.Token.handle rest
   | _ => "bad-op"
 
 partial def loop (h : IO.FS.Stream) (out : IO.FS.Stream) : IO Unit := do
